@@ -411,7 +411,8 @@ def job_stream(job) -> report.JobResult:
         if iface == "wsgi":
             def gen():
                 for it in items:
-                    yield dict(it)
+                    # share_objects: the application yields its OWN event dictionaries (kept in a list / template message) instead of fresh ones
+                    yield it if job.get("share_objects") else dict(it)
             if job.get("second_request"):
                 # one response object built around a re-iterable event source, mounted as an application: the SECOND client gets the same stream
                 class Source:
@@ -430,8 +431,16 @@ def job_stream(job) -> report.JobResult:
                         dly = SInt(delays[k])
                         if dly > 0:
                             await asyncio.sleep(dly)
-                    yield dict(it)
-            ev, done = gw.run_asgi(M.SendEventResponse(gen(), ping_interval=30), {"type": "http", "method": "GET", "headers": []}, use_loop=True)
+                    yield it if job.get("share_objects") else dict(it)
+            if job.get("second_request"):
+                class ASource:
+                    def __aiter__(self):
+                        return gen()
+                app = M.SendEventResponse(ASource(), ping_interval=30)
+                gw.run_asgi(app, {"type": "http", "method": "GET", "headers": []}, use_loop=True)
+                ev, done = gw.run_asgi(app, {"type": "http", "method": "GET", "headers": []}, use_loop=True)
+            else:
+                ev, done = gw.run_asgi(M.SendEventResponse(gen(), ping_interval=30), {"type": "http", "method": "GET", "headers": []}, use_loop=True)
             wire = b"".join(x[1].get("body", b"") for x in ev if x[0] == "send" and x[1]["type"] == "http.response.body")
         if not done or any(x[0] == "raise" for x in ev):
             raise Fail("stream-did-not-complete", str([x for x in ev if x[0] == "raise"]))
@@ -460,7 +469,7 @@ def job_stream(job) -> report.JobResult:
             klass, detail = f.klass, f.detail
         e.last_sat = False
         m = e.witness()
-        wit = {"iface": iface, "sequence": job["seq"], "data": [conc(d0, m), conc(d1, m)], "second_request": bool(job.get("second_request"))}
+        wit = {"iface": iface, "sequence": job["seq"], "data": [conc(d0, m), conc(d1, m)], "second_request": bool(job.get("second_request")), "share_objects": bool(job.get("share_objects"))}
         if job.get("quiet"):
             wit["quiet_ticks_before_each_event"] = [m.eval(dv, True).as_long() for dv in delays]
         replayed = klass is not None or res["validated"] < 40
@@ -497,7 +506,7 @@ def concrete_stream(w) -> Optional[str]:
         if w["iface"] == "wsgi":
             def gen():
                 for it in items:
-                    yield dict(it)
+                    yield it if w.get("share_objects") else dict(it)
             if w.get("second_request"):
                 class Source:
                     def __iter__(self):
@@ -513,8 +522,16 @@ def concrete_stream(w) -> Optional[str]:
                 for k, it in enumerate(items):
                     if quiet and quiet[k] > 0:
                         await asyncio.sleep(quiet[k])
-                    yield dict(it)
-            ev, done = gw.run_asgi(AR.SendEventResponse(gen(), ping_interval=30), {"type": "http", "method": "GET", "headers": []}, use_loop=True)
+                    yield it if w.get("share_objects") else dict(it)
+            if w.get("second_request"):
+                class ASource:
+                    def __aiter__(self):
+                        return gen()
+                app = AR.SendEventResponse(ASource(), ping_interval=30)
+                gw.run_asgi(app, {"type": "http", "method": "GET", "headers": []}, use_loop=True)
+                ev, done = gw.run_asgi(app, {"type": "http", "method": "GET", "headers": []}, use_loop=True)
+            else:
+                ev, done = gw.run_asgi(AR.SendEventResponse(gen(), ping_interval=30), {"type": "http", "method": "GET", "headers": []}, use_loop=True)
             wire = b"".join(x[1].get("body", b"") for x in ev if x[0] == "send" and x[1]["type"] == "http.response.body")
         if not done or any(x[0] == "raise" for x in ev):
             return f"stream did not complete: {[x for x in ev if x[0] == 'raise']}"
@@ -538,6 +555,9 @@ def jobs(tier: str):
     for iface in ("wsgi", "asgi"):
         for seq in ("plain", "with-empty", "empty-first"):
             out.append(dict(name=f"stream/{iface}/{seq}", kind="stream", iface=iface, seq=seq, charset="utf-8", fields=[]))
+    for iface in ("wsgi", "asgi"):
+        out.append(dict(name=f"stream/{iface}/plain/second-request-same-event-objects", kind="stream", iface=iface, seq="plain", charset="utf-8", fields=[],
+                        second_request=True, share_objects=True))
     out.append(dict(name="stream/wsgi/plain/second-request-on-the-same-object", kind="stream", iface="wsgi", seq="plain", charset="utf-8", fields=[], second_request=True))
     for seq in ("plain", "with-empty"):
         out.append(dict(name=f"stream/asgi/{seq}/quiet-producer", kind="stream", iface="asgi", seq=seq, charset="utf-8", fields=[], quiet=True))
